@@ -158,3 +158,65 @@ Section Eigen.
       + apply IH. intros k' Hk'. apply Hks. right. exact Hk'.
   Qed.
 End Eigen.
+
+(* ---- convergence ------------------------------------------------------------------------------------ *)
+From Coquelicot Require Import Coquelicot.
+
+Lemma is_lim_exp_neg v : v < 0 -> is_lim (fun t => exp (v * t)) p_infty 0.
+Proof.
+  intros Hv.
+  apply (is_lim_comp exp (fun t => v * t) p_infty 0 m_infty).
+  - apply is_lim_exp_m.
+  - replace m_infty with (Rbar_mult (Finite v) p_infty).
+    + apply is_lim_scal_l. apply is_lim_id.
+    + unfold Rbar_mult, Rbar_mult'. destruct (Rle_dec 0 v) as [H|H]; [exfalso; lra | reflexivity].
+  - exists 0. intros y _. discriminate.
+Qed.
+
+Lemma is_lim_sum_terms (ks : list nat) (c : nat -> R) (v : nat -> R) :
+  (forall k, In k ks -> v k <= 0) ->
+  is_lim (fun t => fold_right (fun k acc => c k * exp (v k * t) + acc) 0 ks) p_infty
+         (fold_right (fun k acc => (if Req_EM_T (v k) 0 then c k else 0) + acc) 0 ks).
+Proof.
+  induction ks as [|k ks IH]; intros Hv; cbn [fold_right].
+  - apply is_lim_const.
+  - apply (is_lim_plus _ _ p_infty (if Req_EM_T (v k) 0 then c k else 0)
+                                   (fold_right (fun k acc => (if Req_EM_T (v k) 0 then c k else 0) + acc) 0 ks)).
+    + destruct (Req_EM_T (v k) 0) as [E|E].
+      * apply (is_lim_ext (fun _ => c k)); [intros t; rewrite E, Rmult_0_l, exp_0; lra | apply is_lim_const].
+      * replace (Finite 0) with (Rbar_mult (Finite (c k)) (Finite 0)) by (cbn; f_equal; lra).
+        apply is_lim_scal_l. apply is_lim_exp_neg.
+        assert (v k <= 0) by (apply Hv; left; reflexivity). lra.
+    + apply IH. intros k' Hk'. apply Hv. right. exact Hk'.
+    + destruct (Req_EM_T (v k) 0); reflexivity.
+Qed.
+
+(* P(t) converges, as t grows, to the part of R L carried by the zero eigen values *)
+Theorem eigen_converges n val Lm Rm i j :
+  (forall k, (k < n)%nat -> val k <= 0) ->
+  is_lim (fun t => P n val Lm Rm t i j) p_infty
+         (sum n (fun k => if Req_EM_T (val k) 0 then Rm i k * Lm k j else 0)).
+Proof.
+  intros Hv. unfold P, sum.
+  apply (is_lim_ext (fun t => fold_right (fun k acc => (Rm i k * Lm k j) * exp (val k * t) + acc) 0 (seq 0 n))).
+  - intros t. apply sum_seq_ext. intros k _. ring.
+  - apply (is_lim_sum_terms (seq 0 n) (fun k => Rm i k * Lm k j) val).
+    intros k Hk. apply Hv. apply in_seq in Hk. lia.
+Qed.
+
+(* in particular: with a single zero eigen value k0 whose right eigen vector is the vector of ones and
+   whose left eigen vector is pi, every row of P(t) converges to pi *)
+Corollary eigen_converges_to_stationary n val Lm Rm pi k0 i j :
+  (k0 < n)%nat -> val k0 = 0 -> (forall k, (k < n)%nat -> k <> k0 -> val k < 0) ->
+  Rm i k0 = 1 -> Lm k0 j = pi j ->
+  is_lim (fun t => P n val Lm Rm t i j) p_infty (pi j).
+Proof.
+  intros Hk0 Hz Hneg HR HL.
+  replace (Finite (pi j)) with (Finite (sum n (fun k => if Req_EM_T (val k) 0 then Rm i k * Lm k j else 0))).
+  - apply eigen_converges. intros k Hk. destruct (Nat.eq_dec k k0) as [->|Hne]; [lra|]. left. apply Hneg; assumption.
+  - f_equal. rewrite (sum_ext n _ (fun k => delta k k0 * (Rm i k * Lm k j))).
+    + rewrite sum_delta by exact Hk0. rewrite HR, HL. lra.
+    + intros k Hk. unfold delta. destruct (Nat.eqb_spec k k0) as [->|Hne].
+      * destruct (Req_EM_T (val k0) 0); [lra | contradiction].
+      * destruct (Req_EM_T (val k) 0) as [E|E]; [|lra]. specialize (Hneg k Hk Hne). lra.
+Qed.
